@@ -264,11 +264,30 @@ pub fn with_id(o: &OrderType<()>, new_id: OrderId) -> OrderType<()> {
     n
 }
 
+/// Short readable form of an id: `u<n>` for `OrderId::from_u64(n)`, otherwise head..tail.
+pub fn short_id(id: OrderId) -> String {
+    match id {
+        OrderId::Uuid(u) => {
+            let v = u.as_u128();
+            if v & 0xFFFF_FFFF_FFFF_FFFF == 0 {
+                format!("u{}", (v >> 64) as u64)
+            } else {
+                let t = u.simple().to_string();
+                format!("{}..{}", &t[..4], &t[t.len() - 4..])
+            }
+        }
+        OrderId::Ulid(l) => {
+            let t = l.to_string();
+            format!("L{}..{}", &t[..3], &t[t.len() - 4..])
+        }
+    }
+}
+
 /// Compact one-line rendering for evidence samples / failure messages.
 pub fn brief(o: &OrderType<()>) -> String {
     let k = Kind::of(o);
-    let idtxt = o.id().to_string();
-    let short = &idtxt[..idtxt.len().min(8)];
+    let short_owned = short_id(o.id());
+    let short = short_owned.as_str();
     match o {
         OrderType::ReserveOrder {
             replenish_threshold,
